@@ -212,6 +212,47 @@ def run(ck):
                                  f'{Ksmall[ri, b]!r} on {desc}',
                                  dict(desc, x=X[r].tolist(), z=Z[b].tolist(), mat=mat.tolist(), got=float(Kbig[r, b]), want=want, row=r),
                                  key=json.dumps(dict(site='big-x', kernel=kn)))
+    # (e') wide data (1,024 features and more — beyond any width at which an implementation might switch distance routines) with a diagonal / full transform:
+    #      every entry against an independent float64 evaluation of the documented closed form
+    for wi, dw in enumerate([1024, 1500] if ck.tier == 'quick' else [1023, 1024, 1500, 2049]):
+        for kn in ['l2', 'l2_light', 'l1', 'lpq', 'sum_power']:
+            for tkw in ('diag', 'full'):
+                qw = [1.0, 1.3][wi % 2]; pw_ = 1.5; cw, poww = 0.25, 2
+                Xw = rng.standard_normal((3, dw)); Zw = rng.standard_normal((4, dw)); Zw[0] = Xw[0]
+                if tkw == 'diag':
+                    Tw = rng.uniform(0.2, 1.8, size=dw)
+                else:
+                    A = rng.standard_normal((dw, dw)) / math.sqrt(dw)
+                    Tw = (A + A.T) / 2 + 1.2 * np.eye(dw)                   # symmetric positive definite (the light kernel takes it as M itself)
+                U = (Xw[:, None, :] - Zw[None, :, :])
+                TU = U * Tw if tkw == 'diag' else U @ Tw
+                if kn == 'l2':
+                    Dw = np.sqrt((TU ** 2).sum(-1))
+                elif kn == 'l2_light':
+                    Dw = np.sqrt(np.maximum((U * TU).sum(-1), 0))           # (x-z)^T M (x-z)
+                elif kn == 'l1':
+                    Dw = (np.abs(TU) ** qw).sum(-1) ** (1 / qw)
+                elif kn == 'lpq':
+                    Dw = (np.abs(TU) ** pw_).sum(-1) ** (1 / pw_)
+                else:
+                    Dw = None
+                Lw = 1.0 if Dw is None else float(np.median(Dw[Dw > 0]))
+                if kn == 'sum_power':
+                    want = ((1 - cw) * np.exp(-np.abs(TU) ** qw / Lw ** qw).mean(-1) + cw) ** poww
+                else:
+                    want = np.exp(-(Dw ** qw) / Lw ** qw)
+                kobj = make_kernel(xr, kn, Lw, qw, pw_, cw, poww)
+                with xr.quiet():
+                    got = kobj.get_kernel_matrix(torch.tensor(Xw), torch.tensor(Zw), torch.tensor(Tw)).double().numpy()
+                descw = dict(kind='wide', kernel=kn, d=dw, transform=tkw, q=qw, L=Lw, seed=ck.seed)
+                ck.case(descw, nontrivial=True); ck.count(f'wide data d={dw}')
+                tolw = 1e-9 if kn != 'l2_light' else 1e-6
+                errw = float(np.max(np.abs(got - want)))
+                if not (errw <= tolw):
+                    a, b = np.unravel_index(np.argmax(np.abs(got - want)), got.shape)
+                    ck.violation(f'{kn} kernel on {dw}-dimensional points with a {tkw} transform: entry ({a},{b}) = {got[a, b]!r}, documented closed form gives {want[a, b]!r} (err {errw:.3g}) on {descw}',
+                                 dict(descw, got=float(got[a, b]), want=float(want[a, b]), how='X, Z standard normal from default_rng(seed + 505) after the earlier draws; see harness/c05.py section (e\')'),
+                                 key=json.dumps(dict(site='entry-wide', kernel=kn, transform=tkw)))
     # (f) positive semi-definiteness, certified inside Coq: Gram matrices of 5-8 points (random, clustered, duplicated), every kernel with
     #     0 < q <= p <= 2; exact integer LDL^T certificate of (G rounded to 2^-40) + tol*I re-checked by vm_compute (psd_cert_okb); theorem
     #     C05_psd_certificate_is_sound turns it into  v^T G v >= -(tol + n 2^-41) |v|^2  for every real vector v.
